@@ -215,11 +215,15 @@ func scratchRoot() string {
 }
 
 func mkScratch(prefix string) string {
-	d, err := os.MkdirTemp(scratchRoot(), "verif-"+prefix+"-")
-	if err != nil {
-		panic(err)
+	var err error
+	// (a process that has given up root may not be allowed into the configured place)
+	for _, root := range []string{scratchRoot(), "/dev/shm", os.TempDir(), "/tmp"} {
+		var d string
+		if d, err = os.MkdirTemp(root, "verif-"+prefix+"-"); err == nil {
+			return d
+		}
 	}
-	return d
+	panic(err)
 }
 
 func sortedKeys(m map[string]struct{}) []string {
